@@ -406,6 +406,8 @@ class Ctx:
             if k.get("property") == self.pid and k.get("status", "open") == "open" and k.get("key") == key:
                 self.known_hits.append((key, k.get("what", what)))
                 return
+        if any(v[0] == key for v in self.violations):
+            return  # one report per key; the first (usually smallest) instance is the replay
         tag = "unproved" if no_input else re.sub(r"[^A-Za-z0-9_.-]", "_", str(key))[:60] + "-%d" % self.seed
         rp = self.replay_path(tag)
         obj = {"property": self.pid, "seed": self.seed, "tier": self.tier, "key": key, "what": what}
